@@ -188,7 +188,8 @@ def build_case(kind, seed, nops):
     for i in range(nops):
         try:
             d = editgen.apply(doc, seed, i, gen)
-        except Exception:
+        except Exception as e:
+            core.note_skip('c04:edit', e)
             return None, hist
         if d:
             hist.append(d)
